@@ -264,6 +264,12 @@ fn misbehave(kind: &str, mut s: TcpStream) -> Option<TcpStream> {
             let _ = s.write_all(b"HTTP/1.1 200 OK\r\nTransfer-Encoding: chunked\r\nConnection: close\r\n\r\nZZZ\r\n{}\r\n");
             None
         }
+        // a length no client can allocate: 2^63, 2^64-1, 2^40 bytes announced, ten sent, connection closed
+        k if k.starts_with("hugelen") => {
+            let n = match &k[7..] { "63" => "9223372036854775808", "64" => "18446744073709551615", _ => "1099511627776" };
+            let _ = s.write_all(format!("HTTP/1.1 200 OK\r\nContent-Type: application/octet-stream\r\nContent-Length: {}\r\nConnection: close\r\n\r\n0123456789", n).as_bytes());
+            None
+        }
         "halfhead" => {
             let _ = s.write_all(b"HTTP/1.1 200 OK\r\nContent-Ty");
             None
